@@ -439,4 +439,82 @@ theorem gaps_zero_length_first_exon : gapsLocation ⟨[(0, 0), (3, 5)], .plus⟩
   simp [gapsLocation, gapList, optimizeLoc, combineLoop, mkCompoundLoc, sortBlocks, blocksValid, toSingleIfOne,
     bind, Except.bind, pure, Except.pure]
 
+/-! ### introns ∪ exons = span, position by position -/
+
+theorem mem_insertSorted (x y : Nat) (l : List Nat) : x ∈ insertSorted y l ↔ x = y ∨ x ∈ l := by
+  induction l with
+  | nil => simp [insertSorted]
+  | cons z zs ih =>
+    simp only [insertSorted]
+    split
+    · simp
+    · simp only [List.mem_cons, ih]
+      constructor
+      · rintro (h | h | h)
+        · exact Or.inr (Or.inl h)
+        · exact Or.inl h
+        · exact Or.inr (Or.inr h)
+      · rintro (h | h | h)
+        · exact Or.inr (Or.inl h)
+        · exact Or.inl h
+        · exact Or.inr (Or.inr h)
+
+theorem mem_sortNat (x : Nat) (l : List Nat) : x ∈ sortNat l ↔ x ∈ l := by
+  induction l with
+  | nil => simp [sortNat]
+  | cons y ys ih => simp only [sortNat, mem_insertSorted, ih, List.mem_cons]
+
+theorem covers_in_span (bs : List Blk) (p : Nat) (h : coversBlocks bs p = true) :
+    minStart bs ≤ p ∧ p < maxEndS bs := by
+  induction bs with
+  | nil => simp [coversBlocks] at h
+  | cons b bs ih =>
+    simp only [coversBlocks, List.any_cons, Bool.or_eq_true, Bool.and_eq_true, decide_eq_true_eq] at h
+    cases bs with
+    | nil =>
+      simp only [List.any_nil, Bool.false_eq_true, or_false] at h
+      simp only [minStart, maxEndS]; omega
+    | cons c cs =>
+      simp only [minStart, maxEndS]
+      rcases h with h | h
+      · omega
+      · have := ih (by simpa [coversBlocks] using h)
+        simp only [maxEndS] at this
+        omega
+
+/-- the positions of the span are exactly the intron positions together with the exon positions, and no position
+    is both -/
+theorem introns_exons_partition (t : Transcript) (h : WFT t) (hne : noEmptyBlock t.exons.blocks = true)
+    (hsc : txScope (specOf t) = true) :
+    ∃ g, t.chromosomeGapsLocation = .ok g ∧
+      (∀ p, (p ∈ locationBases g ∨ covers t.exons p = true) ↔
+        (minStart t.exons.blocks ≤ p ∧ p < maxEndS t.exons.blocks)) ∧
+      (∀ p, ¬ (p ∈ locationBases g ∧ covers t.exons p = true)) := by
+  have hok := introns_ok t h hne
+  unfold okIntrons at hok
+  have hE : (specOf t).E = t.exons := rfl
+  simp only [hsc, not_true_eq_false, if_false, hE] at hok
+  cases ha : ans t.chromosomeGapsLocation with
+  | none => rw [ha] at hok; cases hok
+  | some g =>
+    rw [ha] at hok
+    simp only [Bool.and_eq_true, beq_iff_eq] at hok
+    obtain ⟨⟨_, hs⟩, _⟩ := hok
+    refine ⟨g, (ans_eq_some _ _).1 ha, ?_, ?_⟩
+    · intro p
+      rw [← mem_sortNat, hs]
+      simp only [List.mem_filter, List.mem_range'_1, Bool.not_eq_true', ← Bool.not_eq_true]
+      constructor
+      · rintro (⟨h1, _⟩ | h1)
+        · omega
+        · exact covers_in_span _ p h1
+      · intro h1
+        by_cases hc : covers t.exons p = true
+        · exact Or.inr hc
+        · exact Or.inl ⟨by omega, hc⟩
+    · intro p ⟨h1, h2⟩
+      rw [← mem_sortNat, hs] at h1
+      simp only [List.mem_filter, Bool.not_eq_true', ← Bool.not_eq_true] at h1
+      exact h1.2 h2
+
 end BioCantor.Proofs
